@@ -271,6 +271,12 @@ def gen_response(tape, method='GET', allow_truncate=False, allow_surplus=True, a
         else:
             head += fmt_field(tape, name, value, lf_only)
         hints.append(len(head))
+    if allow_fold and tape.chance(1, 14, 'junk.line'):
+        # a line that is no field at all (a CGI script printing a second status line, a stray word): tolerated by clients and
+        # skipped, it does not end the header block and takes nothing away from the fields around it
+        head += tape.choice((b'HTTP/1.0 200 OK', b'Status 200', b'garbage-without-colon'), 'junk.line.k') + eol
+        hints.append(len(head))
+        r.desc['junk_header_line'] = True
     if allow_fold and tape.chance(1, 12, 'fold.empty'):
         # obs-fold whose continuation line holds only whitespace: still part of the header block
         head += b'X-Note: value' + eol + tape.choice((b' ', b'\t', b'  \t '), 'fold.empty.ws') + eol
